@@ -90,6 +90,7 @@ pub struct Ctx {
 }
 
 pub const MAX_REPLAYS_PER_KEY: u64 = 3;
+pub const SET_EXPORT_CAP: usize = 100_000;
 
 impl Ctx {
     pub fn new(prop: &str, tier: Tier, seed: u64, shard: u64, nshards: u64, out: Option<String>) -> Ctx {
@@ -259,6 +260,9 @@ impl Ctx {
             .map(|(k, v)| {
                 let mut v: Vec<u64> = v.iter().cloned().collect();
                 v.sort();
+                // keep worker results small: beyond the cap only the smallest hashes are
+                // exported, so the merged count is a lower bound (flagged in `set_sizes`)
+                v.truncate(SET_EXPORT_CAP);
                 (k.clone(), v)
             })
             .collect();
@@ -273,6 +277,7 @@ impl Ctx {
             "distinct_nontrivial": self.distinct_nontrivial,
             "counters": self.counters,
             "sets": sets,
+            "set_sizes": self.sets.iter().map(|(k, v)| (k.clone(), v.len() as u64)).collect::<BTreeMap<String, u64>>(),
             "samples": self.samples,
             "violation_counts": self.violation_counts,
             "violations": self.violations.iter().map(|v| json!({"key": v.key, "what": v.what, "replay": v.replay})).collect::<Vec<_>>(),
